@@ -95,10 +95,26 @@ def aba_paths(rng, n):
         ops += [('read', dict(x=x, prop=p)) for p in props]
         via_view = rng.random() < 0.5
         wr = 'view_write' if via_view else 'set_flow'
-        ops += [(wr, dict(x=x, p='l', c=1, v=w - 4)), (wr, dict(x=x, p='g', c=1, v=4))]
+        if rng.random() < 0.4:
+            # the WHOLE content of one phase moves into the other (the liquid row ends up empty)
+            ops += [(wr, dict(x=x, p='l', c=1, v=0)), (wr, dict(x=x, p='g', c=1, v=w))]
+        else:
+            ops += [(wr, dict(x=x, p='l', c=1, v=w - 4)), (wr, dict(x=x, p='g', c=1, v=4))]
         ops += [('read', dict(x=x, prop=p)) for p in props]
         if rng.random() < 0.5:
             ops += [('reset_thermo', dict(x=x, pkg=rng.choice(['P2', 'P3'])))] + [('read', dict(x=x, prop=p)) for p in props]
+        out.append([dict(op=o, a=a) for o, a in ops])
+    for _ in range(n // 6):
+        # everything a multi-phase stream holds moves from one phase into the (empty) other one, chemical by chemical
+        x = rng.choice(['a', 'b'])
+        props = rng.sample(ds.PROPS, 3)
+        w, e = rng.choice([8, 12]), rng.choice([4, 8])
+        src, dst = rng.choice([('l', 'g'), ('g', 'l')])
+        wr = rng.choice(['view_write', 'set_flow'])
+        ops = [('construct', dict(x=x, k='m', price=0, cf=0)), ('set_flow', dict(x=x, p=src, c=1, v=w)), ('set_flow', dict(x=x, p=src, c=2, v=e)), ('set_T', dict(x=x, T=350))]
+        ops += [('read', dict(x=x, prop=p)) for p in props]
+        ops += [(wr, dict(x=x, p=dst, c=1, v=w)), (wr, dict(x=x, p=src, c=1, v=0)), (wr, dict(x=x, p=dst, c=2, v=e)), (wr, dict(x=x, p=src, c=2, v=0))]
+        ops += [('read', dict(x=x, prop=p)) for p in props]
         out.append([dict(op=o, a=a) for o, a in ops])
     for _ in range(n // 6):
         # property-package change between reads (same chemicals at the same positions, other models)
@@ -120,6 +136,9 @@ def aba_paths(rng, n):
                     ('reset_thermo', dict(x=n_, pkg=pkg)), ('set_phase', dict(x=n_, p='g')), ('set_T', dict(x=n_, T=350))]
         if rng.random() < 0.5:
             ops += [('read', dict(x=x, prop=p)) for p in props]
+        if rng.random() < 0.5:
+            # a chemical is taken out and put back (the sparse flow vector then lists the chemicals in another order)
+            ops += [('set_flow', dict(x=x, p='g', c=1, v=0)), ('set_flow', dict(x=x, p='g', c=1, v=8))]
         ops.append(('reassign', dict(x=x, q=rng.choice(['S', 'S', 'H']))))
         z = rng.choice([x, y])
         ops.append(rng.choice([('set_P', dict(x=z, P=200)), ('set_flow', dict(x=z, p='g', c=2, v=12)), ('set_P', dict(x=z, P=50))]))
